@@ -176,11 +176,6 @@ impl Rel {
     fn idx(self) -> usize {
         RELS.iter().position(|r| *r == self).unwrap()
     }
-
-    /// Lets go of the handle without going through `SharedFd::drop`.
-    fn silent(self) -> bool {
-        matches!(self, Rel::Take2 | Rel::TakeUnpolled)
-    }
 }
 
 type TakeFut = Pin<Box<dyn Future<Output = Option<ProbeFd>> + Send>>;
@@ -626,10 +621,6 @@ impl ThrProgram {
             giveup: v["giveup"].as_u64().map(|x| x as usize),
         })
     }
-
-    fn has_silent(&self) -> bool {
-        self.kinds.iter().any(|r| r.silent())
-    }
 }
 
 fn run_thr(p: &ThrProgram, f: &mut Findings) -> String {
@@ -690,9 +681,12 @@ fn run_thr(p: &ThrProgram, f: &mut Findings) -> String {
                 debug_assert!(all_done);
                 // Every other handle is gone (its release call has returned),
                 // the last poll began after the last wake and said Pending.
-                let class = if p.has_silent() {
-                    "stuck/program-with-second-take"
-                } else if t.sig.wakes() == 0 {
+                // Classified by what was observed only. (Releases through a
+                // second / unpolled take() go through `SharedFd::drop` like any
+                // other; a release that bypasses it is caught deterministically
+                // by the single-threaded enumeration as
+                // `stuck/last-handle-released-by-*`.)
+                let class = if t.sig.wakes() == 0 {
                     "stuck/never-woken"
                 } else {
                     "stuck/woken-before-release"
